@@ -8,9 +8,10 @@ Record svc := {
   running : bool;          (* s.stop != nil: the stop channel exists *)
   stopping : bool;         (* s.stopping *)
   conns : nat;             (* len(s.conns) *)
-  reported : list nat      (* causes sent on the stop channel, oldest first *)
+  reported : list nat;     (* causes sent on the stop channel, oldest first *)
+  cached : nat             (* entries of the resource cache (Cache.eventSubs) *)
 }.
-Definition init : svc := {| running := false; stopping := false; conns := 0; reported := [] |}.
+Definition init : svc := {| running := false; stopping := false; conns := 0; reported := []; cached := 0 |}.
 
 Inductive op :=
 | Start
@@ -18,6 +19,7 @@ Inductive op :=
 | StopClose                    (* stopWSHandler: every connection disconnected and disposed *)
 | StopEnd (cause : nat)        (* the report on the stop channel *)
 | NewConn                      (* newWSConn: WebSocket upgrade or temporary HTTP connection *)
+| Load                         (* a resource is fetched into the cache on behalf of a connection *)
 | ConnClose.
 
 Inductive out := Ok | Refused | Ignored.
@@ -25,15 +27,18 @@ Inductive out := Ok | Refused | Ignored.
 Definition step (s : svc) (o : op) : svc * out :=
   match o with
   | Start => if running s then (s, Ignored) else if stopping s then (s, Refused)
-             else ({| running := true; stopping := false; conns := conns s; reported := reported s |}, Ok)
+             else ({| running := true; stopping := false; conns := conns s; reported := reported s; cached := 0 |}, Ok)   (* Cache.Start: a new, empty map *)
   | StopBegin _ => if negb (running s) || stopping s then (s, Ignored)
-                   else ({| running := true; stopping := true; conns := conns s; reported := reported s |}, Ok)
-  | StopClose => if stopping s then ({| running := running s; stopping := true; conns := 0; reported := reported s |}, Ok) else (s, Ignored)
-  | StopEnd c => if stopping s then ({| running := false; stopping := false; conns := conns s; reported := reported s ++ [c] |}, Ok) else (s, Ignored)
+                   else ({| running := true; stopping := true; conns := conns s; reported := reported s; cached := cached s |}, Ok)
+  | StopClose => if stopping s then ({| running := running s; stopping := true; conns := 0; reported := reported s; cached := cached s |}, Ok) else (s, Ignored)
+  | StopEnd c => if stopping s then ({| running := false; stopping := false; conns := conns s; reported := reported s ++ [c]; cached := cached s |}, Ok) else (s, Ignored)
   | NewConn => if running s && negb (stopping s)
-               then ({| running := running s; stopping := stopping s; conns := S (conns s); reported := reported s |}, Ok)
+               then ({| running := running s; stopping := stopping s; conns := S (conns s); reported := reported s; cached := cached s |}, Ok)
                else (s, Refused)          (* WebSocket: no upgrade; HTTP: 503 system.serviceUnavailable *)
-  | ConnClose => ({| running := running s; stopping := stopping s; conns := conns s - 1; reported := reported s |}, Ok)
+  | Load => if running s && negb (stopping s) && negb (Nat.eqb (conns s) 0)
+            then ({| running := running s; stopping := stopping s; conns := conns s; reported := reported s; cached := S (cached s) |}, Ok)
+            else (s, Ignored)
+  | ConnClose => ({| running := running s; stopping := stopping s; conns := conns s - 1; reported := reported s; cached := cached s |}, Ok)
   end.
 
 Definition run (ops : list op) : svc := fold_left (fun s o => fst (step s o)) ops init.
@@ -52,7 +57,8 @@ Proof. intros s H. unfold step. rewrite H, andb_false_r. reflexivity. Qed.
 Definition Inv (s : svc) : Prop := stopping s = true -> running s = true.
 Lemma step_inv s o : Inv s -> Inv (fst (step s o)).
 Proof.
-  unfold Inv, step. destruct o; destruct (running s) eqn:R, (stopping s) eqn:T; cbn; intros H; try rewrite R; try rewrite T; auto; intros; try discriminate; auto.
+  unfold Inv, step. destruct o; destruct (running s) eqn:R, (stopping s) eqn:T; cbn; intros H; try rewrite R; try rewrite T; auto; intros; try discriminate; auto;
+    destruct (conns s =? 0); cbn in *; try rewrite R; try rewrite T; auto; discriminate.
 Qed.
 Theorem run_inv ops : Inv (run ops).
 Proof.
@@ -72,10 +78,14 @@ Proof.
   intros s c R T. unfold step. rewrite R, T. cbn. repeat split; reflexivity.
 Qed.
 
+(* a restarted service never serves from what was cached before the stop: Start begins with an empty cache *)
+Theorem start_empties_cache : forall s, snd (step s Start) = Ok -> cached (fst (step s Start)) = 0.
+Proof. intros s. unfold step. destruct (running s), (stopping s); cbn; intros H; try discriminate; reflexivity. Qed.
+
 (* Stop while stopping or while stopped does nothing: the cause is reported once per completed Stop *)
 Theorem stop_idempotent : forall s c, (running s = false \/ stopping s = true) -> step s (StopBegin c) = (s, Ignored).
 Proof. intros s c [H|H]; unfold step; rewrite H; cbn; [reflexivity|rewrite orb_true_r; reflexivity]. Qed.
 
-Example ex_cycle : let s := run [Start; NewConn; NewConn; StopBegin 7; NewConn; StopClose; StopEnd 7; NewConn; Start; NewConn] in
-  (conns s, reported s, running s, stopping s) = (1, [7], true, false).
+Example ex_cycle : let s := run [Start; NewConn; Load; NewConn; Load; StopBegin 7; NewConn; Load; StopClose; StopEnd 7; NewConn; Start; NewConn] in
+  (conns s, reported s, running s, stopping s, cached s) = (1, [7], true, false, 0).
 Proof. reflexivity. Qed.
